@@ -140,7 +140,7 @@ def make_wrapper(world, twins, contract, target, orig, is_static, needs_self):
                 if not lab.startswith("ghost:"):
                     st["olds"][e] = ctx.eval_olds(e, env)
             for r in contract.raises:
-                st["whens"][id(r)] = bool(ctx.eval(r.when, env)) if r.when else True
+                st["whens"][id(r)] = bool(ctx.eval(r.when, env)) if (r.when and not r.when.startswith("ghost:")) else True
                 for e in r.ensures:
                     if not e.startswith("ghost:"):
                         st["olds"][e] = ctx.eval_olds(e[7:] if e.startswith("assume:") else e, env)
